@@ -466,6 +466,13 @@ def main(argv):
     os.makedirs(os.path.join(VERIF, "evidence"), exist_ok=True)
     with open(os.path.join(VERIF, "evidence", pid + ".json"), "w") as f:
         json.dump(evidence, f, indent=1)
+    # scratch data of a clean run is not kept (the evidence file describes what was covered)
+    if not violations:
+        for profile in profiles:
+            shutil.rmtree(os.path.join(WORK, f"{pid}-{tier}-{profile}", "work"), ignore_errors=True)
+            for sub in glob.glob(os.path.join(WORK, f"{pid}-{tier}-{profile}", "s[0-9]*")) + [os.path.join(WORK, f"{pid}-{tier}-{profile}", "prev")]:
+                shutil.rmtree(sub, ignore_errors=True)
+        shutil.rmtree(os.path.join(WORK, f"{pid}-search"), ignore_errors=True)
     for l in known_lines:
         print(l)
     for path, suffix in violations:
